@@ -523,6 +523,24 @@ fn gen_line_text(rng: &mut Rng) -> Vec<u8> {
         .collect()
 }
 
+/// does the script contain a line read that follows an end-of-input test with no token read in between?
+fn has_eof_then_line(script: &[Item]) -> bool {
+    let mut armed = false;
+    for it in script {
+        match it {
+            Item::IsEof => armed = true,
+            Item::Line | Item::Lines => {
+                if armed {
+                    return true;
+                }
+            }
+            Item::VecOf(_, 0) => {}
+            _ => armed = false,
+        }
+    }
+    false
+}
+
 /// Makes the next line read start at the beginning of a fresh line: whatever is left of the current line (trailing
 /// separators after the last token, possibly containing newlines) is consumed by as many `Line` items as needed.
 fn flush_current_line(script: &mut Vec<Item>, bytes: &mut Vec<u8>) {
@@ -548,7 +566,7 @@ fn flush_current_line(script: &mut Vec<Item>, bytes: &mut Vec<u8>) {
 }
 
 /// Generates (script, bytes). `budget` bounds the input length roughly (None = free).
-fn gen_input(rng: &mut Rng, max_items: usize, max_len: usize) -> (Vec<Item>, Vec<u8>) {
+fn gen_input(rng: &mut Rng, max_items: usize, max_len: usize, eof_then_line: bool) -> (Vec<Item>, Vec<u8>) {
     let mut script: Vec<Item> = Vec::new();
     let mut bytes: Vec<u8> = Vec::new();
     let nitems = rng.range_usize(1, max_items);
@@ -563,7 +581,7 @@ fn gen_input(rng: &mut Rng, max_items: usize, max_len: usize) -> (Vec<Item>, Vec
         if bytes.len() >= max_len {
             break;
         }
-        let line_ok = !after_eof_test;
+        let line_ok = !after_eof_test || eof_then_line;
         let choice = rng.weighted(&[30, 10, 8, 8, 6, if line_ok { 12 } else { 0 }, if line_ok { 4 } else { 0 }]);
         let len_before = bytes.len();
         // token_open: the last byte rendered belongs to a multi-byte token (a separator is required before the next
@@ -697,7 +715,7 @@ fn gen_input(rng: &mut Rng, max_items: usize, max_len: usize) -> (Vec<Item>, Vec
             script.push(Item::Line);
         }
         _ => {
-            if !after_eof_test {
+            if !after_eof_test || eof_then_line {
                 script.push(Item::Line);
                 script.push(Item::Line);
             }
@@ -756,6 +774,10 @@ struct CaseCtx<'a> {
     want: Vec<Res>,
     spans: Vec<(usize, usize, &'static str)>,
     verbose: bool,
+    /// the script contains a line read directly after an end-of-input test: whether that test consumes whitespace is
+    /// not pinned down by the property, so such cases are judged only by agreement between deliveries
+    cross_only: bool,
+    cross_ref: Option<(Option<Vec<Res>>, String)>,
 }
 
 impl CaseCtx<'_> {
@@ -804,6 +826,32 @@ impl CaseCtx<'_> {
         let mut replay = self.replay.clone();
         if let Some(last) = replay.last_mut() {
             *last = format!("{}:{}", last, sched_idx);
+        }
+        if self.cross_only {
+            self.rep.inc("cross_delivery_comparisons");
+            let cur: Option<Vec<Res>> = o.results.as_ref().ok().cloned();
+            if let Err(p) = &o.results {
+                if !p.in_lib {
+                    self.rep.inconclusive(format!("harness panic at {}:{}: {}", p.file, p.line, p.msg));
+                    return;
+                }
+            }
+            match &self.cross_ref {
+                None => self.cross_ref = Some((cur, sched_string(schedule, tail))),
+                Some((refres, refsched)) => {
+                    if *refres != cur {
+                        let d = self
+                            .input_json()
+                            .set("what", "two deliveries of the same bytes give different results (a script with a line read right after an end-of-input test; judged by agreement between deliveries only)")
+                            .set("delivery_a", refsched.as_str())
+                            .set("results_a", format!("{:?}", refres))
+                            .set("delivery_b", sched_string(schedule, tail))
+                            .set("results_b", format!("{:?}", cur));
+                        self.rep.violation("result_depends_on_delivery:eof_test_then_line", d, replay);
+                    }
+                }
+            }
+            return;
         }
         match &o.results {
             Ok(got) => {
@@ -863,7 +911,7 @@ fn compositions_schedule(n: usize, mask: u64) -> Vec<Ins> {
     v
 }
 
-fn prepare<'a>(rep: &'a mut Report, mode: &'static str, case_seed: u64, bytes: Vec<u8>, script: Vec<Item>, verbose: bool) -> Option<CaseCtx<'a>> {
+fn prepare<'a>(rep: &'a mut Report, mode: &'static str, case_seed: u64, bytes: Vec<u8>, script: Vec<Item>, verbose: bool, cross_only: bool) -> Option<CaseCtx<'a>> {
     let replay = vec!["--mode".into(), mode.to_string(), "--case".into(), format!("{}", case_seed)];
     match model_run(&bytes, &script) {
         Ok((want, spans)) => {
@@ -872,12 +920,18 @@ fn prepare<'a>(rep: &'a mut Report, mode: &'static str, case_seed: u64, bytes: V
                 eprintln!("script : {:?}", script);
                 eprintln!("model  : {:?}", want);
             }
-            Some(CaseCtx { rep, mode, replay, bytes: Rc::new(bytes), script, want, spans, verbose })
+            Some(CaseCtx { rep, mode, replay, bytes: Rc::new(bytes), script, want, spans, verbose, cross_only, cross_ref: None })
         }
         Err(e) => {
             if verbose {
                 eprintln!("input  : {}", show_bytes(&bytes[..bytes.len().min(400)]));
                 eprintln!("script : {:?}", script);
+            }
+            if cross_only {
+                // the positional model is not the judge for these cases; a script that is misaligned under the model's
+                // reading of the end-of-input test is simply not run
+                rep.inc("cross_only_cases_skipped_model_misaligned");
+                return None;
             }
             rep.inconclusive(format!("reference model rejected a generated input (case {}): {}", case_seed, e));
             None
@@ -888,9 +942,10 @@ fn prepare<'a>(rep: &'a mut Report, mode: &'static str, case_seed: u64, bytes: V
 /// exhaustive deliveries of one short input
 fn run_exhaustive_case(case_seed: u64, only: Option<u64>, rep: &mut Report, verbose: bool) {
     let mut rng = Rng::new(case_seed);
+    let cross_only = case_seed % 5 == 1;
     let maxlen = 13;
     let (script, mut bytes) = loop {
-        let (s, b) = gen_input(&mut rng, 4, 10);
+        let (s, b) = gen_input(&mut rng, 4, 10, cross_only);
         if !b.is_empty() && b.len() <= maxlen {
             break (s, b);
         }
@@ -911,7 +966,10 @@ fn run_exhaustive_case(case_seed: u64, only: Option<u64>, rep: &mut Report, verb
     }
     rep.inc("evaluations");
     let n = bytes.len();
-    let mut cx = match prepare(rep, "exhaustive", case_seed, bytes, script, verbose) {
+    let mut cx = match {
+        let c = has_eof_then_line(&script);
+        prepare(rep, "exhaustive", case_seed, bytes, script, verbose, c)
+    } {
         Some(c) => c,
         None => return,
     };
@@ -1002,10 +1060,14 @@ fn random_schedule(rng: &mut Rng, n: usize, interrupts: bool) -> (Vec<Ins>, Tail
 
 fn run_random_case(case_seed: u64, only: Option<u64>, rep: &mut Report, verbose: bool) {
     let mut rng = Rng::new(case_seed);
-    let (script, bytes) = gen_input(&mut rng, 14, 600);
+    let cross_only = case_seed % 5 == 0;
+    let (script, bytes) = gen_input(&mut rng, 14, 600, cross_only);
     rep.inc("evaluations");
     let n = bytes.len();
-    let mut cx = match prepare(rep, "random", case_seed, bytes, script, verbose) {
+    let mut cx = match {
+        let c = has_eof_then_line(&script);
+        prepare(rep, "random", case_seed, bytes, script, verbose, c)
+    } {
         Some(c) => c,
         None => return,
     };
@@ -1111,7 +1173,7 @@ fn run_boundary_case(case_seed: u64, only: Option<u64>, rep: &mut Report, verbos
     script.push(Item::Lines);
     script.push(Item::IsEof);
     let n = bytes.len();
-    let mut cx = match prepare(rep, "boundary", case_seed, bytes, script, verbose) {
+    let mut cx = match prepare(rep, "boundary", case_seed, bytes, script, verbose, false) {
         Some(c) => c,
         None => return,
     };
